@@ -16,7 +16,7 @@ LEVEL = "exploration"
 RULE = ("E1+E3: ('sig', curve, hash, encoding, canonise) = full product of 17 curves x {SHA-1,224,256,384,512} x {string, strings, DER} x canonise "
         "{no, yes}: a library signature made with seam entropy and a deterministic one verify in the library and in OpenSSL (dgst -verify); an "
         "OpenSSL signature verifies in the library; sign_deterministic == (r, s) of the RFC 6979 reference (pinned to RFC 6979 A.2.5 vectors); "
-        "verification under another key fails; ('pre', curve, loader, lazy) keys obtained from every loader verify after precompute(); ('rs', curve, class) signatures whose r / s fall into edge classes (nonce 1 and n-1, r or s with one / two leading zero bytes, top bit set), found by deterministic search with the reference curve, through every encoding; ('tamper', curve, encoding, what, bit) EVERY single-bit change of an 8-byte message and of the "
+        "verification under another key fails; ('pre', curve, loader, lazy) keys obtained from every loader verify after precompute(); ('rs', curve, class) signatures whose r / s fall into edge classes (nonce 1 and n-1, r or s with one / two leading zero bytes, top bit set), found by deterministic search with the reference curve, through every encoding; ('keyhist', curve, ops) every sequence of 3 operations (sign / verify with different hashes and messages, verify a forgery, precompute) on ONE live key pair; ('tamper', curve, encoding, what, bit) EVERY single-bit change of an 8-byte message and of the "
         "encoded signature (all bits on 5 curves quick / 17 thorough, one bit per byte on the rest) must raise BadSignatureError; ('range', curve, "
         "encoding, r-class, s-class) r, s in {0, n, n+1, 2^k, valid} must be rejected; ('malformed', curve, encoding, i) truncated / extended "
         "encodings raise the documented errors. Distinct = case tuples.")
@@ -98,6 +98,11 @@ def cases(ctx):
     for ci in range(len(STD)):
         for cls in RS_CLASSES:
             yield ("rs", ci, cls)
+    # one live key pair used for a sequence of operations with different hashes / messages: no result may depend on earlier calls
+    from itertools import product as _product
+    for ci in (2, 0, 16, 6):
+        for seq in _product(range(len(KEY_OPS)), repeat=3):
+            yield ("keyhist", ci) + seq
     for ci in range(len(STD)):
         for loader in ("generated", "from_string", "from_der", "from_pem", "from_public_point"):
             for lazy in (True, False):
@@ -119,6 +124,8 @@ def cases(ctx):
                 yield ("malformed", ci, enc, i)
 
 
+KEY_OPS = [("sign", "sha256", 0), ("sign", "sha1", 1), ("sign", "sha512", 0), ("verify", "sha256", 0), ("verify", "sha1", 1),
+           ("verify-bad", "sha256", 1), ("precompute",)]
 RS_CLASSES = ["k=1", "k=n-1", "r-leading-00", "s-leading-00", "r-top-bit", "s-top-bit", "r-leading-0000", "s-small"]
 _RS = {}
 
@@ -225,6 +232,32 @@ def run_case(ctx, case):
                 return o.viol("verify|accepts-%s" % label, "%s: verification with %s gave %r" % (what, label, res))
         return o
     hf = hashlib.sha256
+    if kind == "keyhist":
+        msgs = [b"message zero", b"message one!"]
+        live_sk = SigningKey.from_secret_exponent(d, curve=cur)
+        live_vk = VerifyingKey.from_string(vk.to_string(), curve=cur)
+        for step, oi in enumerate(case[2:]):
+            op = KEY_OPS[oi]
+            if op[0] == "precompute":
+                live_vk.precompute(lazy=(step % 2 == 0))
+                continue
+            hfn = getattr(hashlib, op[1])
+            m = msgs[op[2]]
+            er, es = R.sign_deterministic(cv, d, op[1], m)
+            if op[0] == "sign":
+                got = rs_of(live_sk.sign_deterministic(m, hashfunc=hfn), "string", n)
+                if got != (er, es):
+                    return o.viol("keyhist|sign", "%s: operation #%d of %r on one live signing key gives a signature that differs from a first call on a fresh key" % (
+                        cur.name, step, [KEY_OPS[x] for x in case[2:]]))
+            else:
+                sig = from_rs(er, es, "string", n)
+                mm = m if op[0] == "verify" else m + b"?"
+                res = verify_outcome(live_vk, sig, mm, hfn, U.sigdecode_string)
+                want = "ok" if op[0] == "verify" else "bad"
+                if res != want:
+                    return o.viol("keyhist|%s" % op[0], "%s: operation #%d of %r on one live verifying key gives %r, expected %s" % (
+                        cur.name, step, [KEY_OPS[x] for x in case[2:]], res, want))
+        return o
     if kind == "rs":
         _, ci, cls = case
         e = R.digest_int(hf(MSG).digest(), n)
